@@ -1,4 +1,4 @@
-"""C08 — every server backend implements the version-chain protocol exactly: object-store backend only.
+"""C08 — every server backend implements the version-chain protocol exactly: object-store backend and local on-disk backend.
 
 Real code: CloudServer::{new, add_version, get_child_version, add_snapshot, get_snapshot, get_latest,
 get_child_versions, snapshot_info, maybe_cleanup, cleanup, version_name/parse_version_name, snapshot names},
@@ -9,7 +9,9 @@ from mirsym.explore import PathAbort, Panic
 from mirsym.values import Adt, clone_val, PyVec, Some, NONE
 from mirsym.models.core import val_eq, z_and, z_all, z_any, z_not
 from .common import get_interp, show
-from .cloudworld import CloudWorld, replay_scenario, replay_judge, validate_samples  # noqa: F401
+from . import cloudworld as _cw
+from .cloudworld import CloudWorld
+from .localsrv import LocalSrvWorld, predicted_results, compare_calls, hex32
 
 PROPERTY = 'C08'
 REPLAY_RETRIES = 2
@@ -164,20 +166,191 @@ class Harness:
         return out
 
 
+
+class LocalHarness:
+    """the local on-disk server: real LocalServer::{new, add_version, get_child_version, get_snapshot, get_latest_version_id,
+    set_latest_version_id, get_version_by_parent_version_id, add_version_by_parent_version_id}, StoredUuid's ToSql/FromSql,
+    over the rusqlite model; several handles on one directory used one after the other"""
+
+    def __init__(self, ncalls, nclients, name):
+        self.I = get_interp(variant='full')
+        self.ncalls, self.nclients, self.name = ncalls, nclients, name
+
+    def run_path(self, ctx):
+        from .common import World
+        c, I = ctx, self.I
+        base = World(I, ctx)
+        w = LocalSrvWorld(I, ctx)
+
+        def fresh_parent():
+            # an arbitrary uuid; ids minted from now on are fresh, i.e. differ from it (uuid4 contract; stated assumption)
+            p = c.fresh_int('parent', 0, 2 ** 128 - 1)
+            for k in range(base.nuuid + 1, base.nuuid + self.ncalls + 3):
+                c.assume(p != 5000 + k)
+            return p
+        servers = [w.new_server() for _ in range(self.nclients)]
+        chain = []
+        calls, results = [], []
+        minted = {}          # concrete minted id -> index of the call that returned it
+
+        def scenario(m):
+            def parent_ref(p):
+                v = show(p, m)
+                return {'ref': minted[v]} if v in minted else {'lit': str(v)}
+            cs = []
+            for kind, h, parent, payload in calls:
+                d = {'h': h, 'call': kind}
+                if parent is not None:
+                    d['parent'] = parent_ref(parent)
+                if payload is not None:
+                    d['payload'] = [show(b, m) for b in payload.items]
+                cs.append(d)
+            return {'kind': 'srvcalls', 'backend': 'local', 'handles': self.nclients, 'calls': cs,
+                    'walk_from': parent_ref(chain[0][0]) if chain else {'lit': '0'}}
+
+        def wit(m):
+            return {'backend': 'local', 'scenario': scenario(m), 'predicted': {'results': predicted_results(results, m), 'walk': None}}
+        for step in range(self.ncalls):
+            h = c.choose(self.nclients, 'client') if step else 0
+            srv = servers[h]
+            kind = ['add_version', 'get_child_version', 'get_snapshot'][c.choose(3, 'call')]
+            latest = chain[-1][1] if chain else 0
+            if kind == 'add_version':
+                parent = fresh_parent()
+                payload = PyVec([c.fresh_int('b', 0, 255) for _ in range(step % 3)])
+                r = w.run(w.f_add_version(srv, parent, clone_val(payload)))
+                calls.append((kind, h, parent, payload))
+                results.append((kind, r))
+                if r.variant != 0:
+                    c.prove(False, 'add_version returned Err', wit, {'class': 'err', 'backend': 'local', 'err': repr(r)[:120]})
+                    return None
+                res = r.fields[0].fields[0]
+                accept = (not chain) or c.branch(val_eq(parent, latest))
+                if accept:
+                    if res.variant != 0:
+                        c.prove(False, 'a version on top of the latest version was rejected', wit, {'class': 'reject-valid', 'backend': 'local'})
+                        return None
+                    vid = res.fields[0]
+                    minted[vid] = len(calls) - 1
+                    chain.append((parent, vid, payload))
+                    c.cover('local: version accepted')
+                else:
+                    ok = res.variant == 1 and val_eq(res.fields[0], latest)
+                    if res.variant != 1 or not c.prove(ok, 'rejection does not name the latest version', wit, {'class': 'reject-wrong-latest', 'backend': 'local'}):
+                        if res.variant != 1:
+                            c.prove(False, 'a version whose parent is not the latest was accepted', wit, {'class': 'accept-invalid', 'backend': 'local'})
+                        return None
+                    c.cover('local: version rejected naming latest')
+            elif kind == 'get_child_version':
+                parent = fresh_parent()
+                r = w.run(w.f_get_child_version(srv, parent))
+                calls.append((kind, h, parent, None))
+                results.append((kind, r))
+                if r.variant != 0:
+                    c.prove(False, 'get_child_version returned Err', wit, {'class': 'err', 'backend': 'local', 'err': repr(r)[:160]})
+                    return None
+                g = r.fields[0]
+                exp = None
+                for p, v, pl in chain:
+                    if c.branch(val_eq(p, parent)):
+                        exp = (p, v, pl)
+                        break
+                if exp is None:
+                    if g.variant != 0:
+                        c.prove(False, 'a child was returned for a parent that has none', wit, {'class': 'phantom-child', 'backend': 'local'})
+                        return None
+                    c.cover('local: no such version')
+                else:
+                    if g.variant != 1:
+                        c.prove(False, 'an accepted version is not returned as the child of its parent', wit, {'class': 'missing-child', 'backend': 'local'})
+                        return None
+                    ok = z_all([val_eq(g.fields[0], exp[1]), val_eq(g.fields[1], exp[0]), val_eq(g.fields[2], exp[2])])
+                    if not c.prove(ok, 'child version differs from what was accepted (id / parent / bytes)', wit, {'class': 'child-differs', 'backend': 'local'}):
+                        return None
+                    c.cover('local: child returned byte for byte')
+            else:
+                r = w.run(w.f_get_snapshot(srv))
+                calls.append((kind, h, None, None))
+                results.append((kind, r))
+                if r.variant != 0 or r.fields[0].variant != 0:
+                    c.prove(False, 'get_snapshot of the local server did not return "no snapshot"', wit, {'class': 'phantom-snapshot', 'backend': 'local'})
+                    return None
+        # the whole chain read back through a fresh handle
+        srv = w.new_server()
+        parent = chain[0][0] if chain else 0
+        walk = []
+        for p, v, pl in chain:
+            r = w.run(w.f_get_child_version(srv, parent))
+            g = r.fields[0] if r.variant == 0 else None
+            if g is None or g.variant != 1:
+                c.prove(False, 'chain cannot be walked from the first version', wit, {'class': 'walk', 'backend': 'local'})
+                return None
+            ok = z_all([val_eq(g.fields[0], v), val_eq(g.fields[2], pl)])
+            if not c.prove(ok, 'chain read back differs from the accepted versions', wit, {'class': 'walk-differs', 'backend': 'local'}):
+                return None
+            walk.append(g)
+            parent = v
+        r = w.run(w.f_get_child_version(srv, parent))
+        if r.variant != 0 or r.fields[0].variant != 0:
+            c.prove(False, 'the latest version has a child', wit, {'class': 'walk-extra', 'backend': 'local'})
+            return None
+        out = {'backend': 'local', 'calls': [x[0] for x in calls], 'chain': len(chain)}
+        if c.want_sample:
+            m = c.get_model()
+            if m is not None:
+                out['scenario'] = scenario(m)
+                out['predicted'] = {'results': predicted_results(results, m),
+                                    'walk': [{'id': hex32(show(g.fields[0], m)), 'parent': hex32(show(g.fields[1], m)),
+                                              'bytes': [show(b, m) for b in g.fields[2].items]} for g in walk]}
+            out['_encoded'] = sorted(I.encoded)
+            out['_modelled'] = sorted(I.modelled)
+        return out
+
+
+def replay_scenario(v):
+    if v['witness'].get('backend') == 'local':
+        return v['witness']['scenario']
+    return _cw.replay_scenario(v)
+
+
+def replay_judge(scn, out, v):
+    if v['witness'].get('backend') == 'local':
+        # confirmed when the compiled LocalServer over the real SQLite returns what the interpreter predicted for the
+        # calls made so far (the oracle was evaluated on those values); the final walk is not part of a counterexample
+        pred = v['witness']['predicted']
+        n = len(pred['results'])
+        if not isinstance(out, dict) or 'results' not in out:
+            return False, {'replay_output': str(out)[:300]}
+        eq, d = compare_calls({'results': pred['results'], 'walk': []}, {'results': out['results'][:n], 'walk': []})
+        return eq, d
+    return _cw.replay_judge(scn, out, v)
+
+
+def validate_samples(s, out):
+    if s.get('backend') == 'local':
+        return compare_calls(s['predicted'], out)
+    return _cw.validate_samples(s, out)
+
 def required_covers(tier):
-    return ['version accepted', 'version rejected naming latest', 'no such version', 'child returned byte for byte', 'snapshot returned intact']
+    return ['version accepted', 'version rejected naming latest', 'no such version', 'child returned byte for byte', 'snapshot returned intact',
+            'local: version accepted', 'local: version rejected naming latest', 'local: no such version', 'local: child returned byte for byte']
 
 
 def configs(tier):
     if tier == 'quick':
         return [dict(name='calls3x2', factory=lambda: Harness(3, 2, 'q'),
-                     bounds='every sequence of 3 calls (add_version / get_child_version / add_snapshot / get_snapshot) from 2 client handles used one after the other; parents: an arbitrary symbolic uuid (latest / older / unknown decided by z3); payloads of 0-2 symbolic bytes (length fixed per position); version ids symbolic and distinct; "cleanup now?" a symbolic random byte; then the chain is walked through a fresh handle')]
+                     bounds='every sequence of 3 calls (add_version / get_child_version / add_snapshot / get_snapshot) from 2 client handles used one after the other; parents: an arbitrary symbolic uuid (latest / older / unknown decided by z3); payloads of 0-2 symbolic bytes (length fixed per position); version ids symbolic and distinct; "cleanup now?" a symbolic random byte; then the chain is walked through a fresh handle'),
+                dict(name='local-calls3x2', factory=lambda: LocalHarness(3, 2, 'lq'), mir='full',
+                     bounds='local on-disk server: every sequence of 3 calls (add_version / get_child_version / get_snapshot) from 2 handles on one directory used one after the other; parents arbitrary symbolic uuids; payloads 0-2 symbolic bytes; then the chain is walked through a fresh handle')]
     return [dict(name='calls4x2', factory=lambda: Harness(4, 2, 't'), bounds='as quick with 4 calls', time_limit_s=3300),
-            dict(name='calls3x2-page1', factory=lambda: Harness(3, 2, 'p1', page_size=1), bounds='3 calls, list page size 1', time_limit_s=3300)]
+            dict(name='calls3x2-page1', factory=lambda: Harness(3, 2, 'p1', page_size=1), bounds='3 calls, list page size 1', time_limit_s=3300),
+            dict(name='local-calls5x2', factory=lambda: LocalHarness(5, 2, 'lt'), mir='full', bounds='local on-disk server, 5 calls from 2 handles', time_limit_s=3300)]
 
 
 ASSUMPTIONS = [
-    'claimed for the object-store backend only: local (SQLite FFI), git (sub-processes) and HTTP (reqwest, remote server) backends cannot be executed symbolically',
+    'claimed for the object-store backend and the local on-disk backend; git (sub-processes) and HTTP (reqwest, remote server) backends are outside',
+    'local backend: the Rust code of LocalServer and StoredUuid is executed; the SQL engine behind rusqlite is a model (tables in insertion order, PRIMARY KEY uniqueness, transactions as private copies committed atomically; only the statement forms the crate uses are understood, anything else is inconclusive); the replay runs the same calls on the compiled LocalServer over the real SQLite (ServerConfig::Local) and compares every result',
+    'local backend: add_snapshot is never called (the local server never asks for a snapshot; its add_snapshot is unreachable!() by design), get_snapshot must answer "none"; handles are used one after the other (no concurrent transactions: SQLite locking is outside)',
     'object store = model of the Service trait contract (get/put/del/list by prefix/compare-and-swap); ring primitives idealised (see C13); Uuid::new_v4 returns fresh distinct values with symbolic order',
     'payloads: 0-2 symbolic bytes (empty and non-UTF-8 included); large payloads outside; object creation times equal the current time (no version is old enough for age-based cleanup here, that is C10)',
     'replay: the solver model is run on the compiled CloudServer over the hook in-memory object store; a counterexample is confirmed when results, request log and store content equal the interpreter\'s prediction (ids compared up to renaming, since the real code mints them at random)',
